@@ -165,6 +165,8 @@ def gen(rng, tier):
             cuts |= {rng.randrange(size) for _ in range(30)}
         for n in sorted(cuts):
             out.append(dict(family='bpch', spec=c, cut=n, mode='r+' if n % 2 else 'r'))
+            if n in marks or n % 5 == 0:
+                out.append(dict(family='bpch', spec=c, cut=n, mode='r', entry='master'))
     return out
 
 
@@ -257,9 +259,12 @@ def _oracle_bnd(case, res):
     return None
 
 
-def _bpch_read(spec, b, mode='r'):
+def _bpch_read(spec, b, mode='r', entry='bpch1'):
     from PseudoNetCDF.geoschemfiles._bpch import bpch1
     from . import c18
+    if entry == 'master':
+        # the public reader: it tries the memory-mapped reader and falls back on the block-walking one
+        from PseudoNetCDF.geoschemfiles._bpchmaster import bpch as bpch1
     d = tempfile.mkdtemp(prefix='c14b_', dir=camx.tmpdir())
     try:
         p = os.path.join(d, 'a.bpch')
@@ -294,7 +299,7 @@ def impl(case):
             p = b[:case['cut']]
             try:
                 if fam == 'bpch':
-                    v = _bpch_read(case['spec'], p, case.get('mode', 'r'))
+                    v = _bpch_read(case['spec'], p, case.get('mode', 'r'), case.get('entry', 'bpch1'))
                 elif fam == 'bnd':
                     v = _bnd_read(case['spec'], p, case.get('mode', 'r'))
                 else:
